@@ -25,7 +25,7 @@ REPORT = ['modules', 'evaluations', 'texts_read_back', 'strings_with_quote', 'em
           'reader_not_applicable', 'carved_out']
 FLOORS = {'quick': {'evaluations': 12000, 'texts_read_back': 10000, 'strings_with_quote': 300, 'reals': 1000},
           'thorough': {'evaluations': 48000, 'texts_read_back': 40000, 'strings_with_quote': 1200, 'reals': 4000}}
-TIMEOUT = {'quick': 1800, 'thorough': 14000}
+TIMEOUT = {'quick': 1800, 'thorough': 5400}
 INDENTS = [None, 0, 2, 4]
 
 
